@@ -82,7 +82,7 @@ def oracle(zkh, msgs):
 def canon_prove(line, x):
     """the Groth16 proof is randomised: keep only the bytes after the 128 proof bytes"""
     w = line.split(" ")
-    if len(w) >= 2 and w[0] == "rln" and w[1] in ("prove_req", "prove_wit") and x.startswith("ok "):
+    if len(w) >= 2 and w[0] == "rln" and w[1] in ("prove_req", "prove_wit", "prove_ext") and x.startswith("ok "):
         return "ok " + (x[3 + 256:] or "-")
     if len(w) >= 2 and w[0] == "rln" and w[1] == "prove_raw" and x.startswith("ok "):
         return "ok -" if len(x) == 3 + 256 else "ok (unexpected length)"
